@@ -224,6 +224,32 @@ func (p *Program) LookupFunc(pkgRel, recv, name string) *ssa.Function {
 			cands = append(cands, f)
 		}
 	}
+	if len(cands) != 1 {
+		// a function turned into a method of its first parameter's type (or back): compare the
+		// receiver-plus-parameters multiset
+		cands = nil
+		wantLoose := looseSig(want)
+		for f := range p.AllFuncs {
+			if f.Pkg == nil || f.Pkg.Pkg != pk.Types || f.Parent() != nil || len(f.Blocks) == 0 || f.Synthetic != "" {
+				continue
+			}
+			if looseSig(anchorSig(f)) == wantLoose && (f.Name() == name || true) {
+				cands = append(cands, f)
+			}
+		}
+		if len(cands) > 1 {
+			// prefer the one that kept the name
+			var same []*ssa.Function
+			for _, f := range cands {
+				if f.Name() == name {
+					same = append(same, f)
+				}
+			}
+			if len(same) == 1 {
+				cands = same
+			}
+		}
+	}
 	if len(cands) == 1 {
 		if p.Renamed == nil {
 			p.Renamed = map[string]string{}
@@ -261,6 +287,54 @@ func (p *Program) ResolveAnchors() {
 			p.LookupFunc(parts[0], parts[1], parts[2])
 		}
 	}
+}
+
+// looseSig normalises an anchorSig so that "func(A,B)(R)" and "(A)func(B)(R)" compare equal.
+func looseSig(sig string) string {
+	recv := ""
+	rest := sig
+	if strings.HasPrefix(sig, "(") {
+		if i := strings.Index(sig, ")func("); i >= 0 {
+			recv = sig[1:i]
+			rest = sig[i+1:]
+		}
+	}
+	// rest = func(P...)(R...)
+	i := strings.Index(rest, ")(")
+	if !strings.HasPrefix(rest, "func(") || i < 0 {
+		return sig
+	}
+	params := rest[len("func("):i]
+	results := rest[i+1:]
+	var ps []string
+	if recv != "" {
+		ps = append(ps, recv)
+	}
+	if params != "" {
+		ps = append(ps, splitTopLevel(params)...)
+	}
+	sort.Strings(ps)
+	return "func{" + strings.Join(ps, ";") + "}" + results
+}
+
+// splitTopLevel splits a comma-separated type list, ignoring commas nested in brackets.
+func splitTopLevel(s string) []string {
+	var out []string
+	depth, start := 0, 0
+	for i, r := range s {
+		switch r {
+		case '(', '[', '{':
+			depth++
+		case ')', ']', '}':
+			depth--
+		case ',':
+			if depth == 0 {
+				out = append(out, s[start:i])
+				start = i + 1
+			}
+		}
+	}
+	return append(out, s[start:])
 }
 
 // anchorSig renders receiver kind + signature of a function (names of parameters excluded).
